@@ -275,15 +275,19 @@ theorem C13_machine_suspended_not_idle {s : State} (h : Reachable s) :
     | cons a l => rfl
 
 /-- **Quiescent means idle, machine level.**  In every reachable state in which no thread record is live
-    and the event queue is drained, the director's instance list, the timer and both listener tables are
-    empty and the engine's idle flag is up.
-    (That the queue holds no event of a dead thread is not part of the invariant — `cancelEvents` runs in
-    every thread destructor, compared with the engine — hence the hypothesis.) -/
+    the director's instance list, the event queue, the timer and both listener tables are empty and the
+    engine's idle flag is up.  (The queue: every queued event belongs to a thread whose VM is not destroyed —
+    clause `e` of the instance-list invariant.) -/
 theorem C13_machine_quiescent_means_idle {s : State} (h : Reachable s) :
     s.outOfFuel = true ∨
-      ((∀ t th, s.th? t = some th → th.dead = true) → s.events = [] →
-        idleFlag s = true ∧ s.insts = [] ∧ s.timer.elems = [] ∧ s.notify = [] ∧ s.waitFor = []) := by
-  refine (reachable_hinv2 h).map (fun hi hq hev => ?_)
+      ((∀ t th, s.th? t = some th → th.dead = true) →
+        idleFlag s = true ∧ s.insts = [] ∧ s.events = [] ∧ s.timer.elems = [] ∧ s.notify = [] ∧ s.waitFor = []) := by
+  refine (reachable_hinv2 h).map (fun hi hq => ?_)
+  have hev : s.events = [] := by
+    apply List.eq_nil_iff_forall_not_mem.2
+    intro ev he
+    obtain ⟨th, h1, h2⟩ := hi.j.e ev he
+    exact h2 ((hi.h.inv.th ev.1 th h1).f2 (hq ev.1 th h1)).2
   have hI : s.insts = [] := by
     cases hL : s.insts with
     | nil => rfl
@@ -295,7 +299,7 @@ theorem C13_machine_quiescent_means_idle {s : State} (h : Reachable s) :
       obtain ⟨th, h1, h2, _⟩ := b3 u hu
       rw [hq u th h1] at h2; cases h2
   obtain ⟨q1, q2, q3⟩ := hi.h.inv.quiescent_empty hq
-  exact ⟨by unfold idleFlag; rw [hI, hev]; rfl, hI, q1, q2, q3⟩
+  exact ⟨by unfold idleFlag; rw [hI, hev]; rfl, hI, hev, q1, q2, q3⟩
 
 /-- **Every listed instance is alive, machine level**: in every reachable state each instance in the
     director's list has a non-empty chain without duplicates, every member is a live thread record of that
